@@ -18,9 +18,11 @@
 (* Impl (policies): "readAll" is what the generated code does (a JSON      *)
 (* decoder / io.ReadAll / io.Copy loop: read until the end is announced);  *)
 (* "single" (one Read into a buffer of the announced size) and             *)
-(* "closeFirst" (a deferred Close that runs before the body is handed on)  *)
-(* are the mistakes the property excludes - MC_Stream_single /             *)
-(* MC_Stream_closeFirst must violate.                                      *)
+(* "closeFirst" / "cancelFirst" (a deferred Close, or a deferred cancel of  *)
+(* the request's context - which governs the reading of the response body  *)
+(* as well -, that runs before the body is handed on) are the mistakes the *)
+(* property excludes: MC_Stream_single / _closeFirst / _cancelFirst must   *)
+(* violate.                                                                *)
 (*                                                                         *)
 (* Every complete behaviour of the source (the sequence of (n, end)        *)
 (* answers) is printed by MC_Stream_emit and replayed, scaled to the       *)
@@ -30,12 +32,12 @@
 EXTENDS Naturals, Sequences
 
 CONSTANTS L,        \* length of the body in units
-          Policy,   \* "readAll" | "single" | "closeFirst"
+          Policy,   \* "readAll" | "single" | "closeFirst" | "cancelFirst"
           MaxZero   \* how many Reads in a row may hand over nothing without announcing the end
 
 VARIABLES pos,      \* units the source has handed over
           ended,    \* the source has announced the end
-          closed,   \* the consumer closed the body
+          closed,   \* the consumer closed the body, or cancelled the context of the request it belongs to
           zeros,    \* empty Reads in a row
           hist,     \* the source's answers so far: << [n, end] >>
           got,      \* units the consumer holds
@@ -46,7 +48,7 @@ Init == pos = 0 /\ ended = FALSE /\ closed = FALSE /\ zeros = 0 /\ hist = << >> 
 
 \* ---- consumer steps that are not Reads ----
 Start == /\ cst = "open"
-         /\ IF Policy = "closeFirst" THEN closed' = TRUE ELSE closed' = closed
+         /\ IF Policy \in {"closeFirst", "cancelFirst"} THEN closed' = TRUE ELSE closed' = closed
          /\ cst' = "reading"
          /\ UNCHANGED <<pos, ended, zeros, hist, got>>
 
